@@ -17,7 +17,9 @@ TRUSTED = [
     "hand models models/EagerModel.v (get_value, _complete_model, satisfies) over models/Substituter.v and models/Simplifier.v, "
     "tied to pysmt/solvers/eager.py, pysmt/solvers/solver.py by this run's correspondence (exact structural equality of the returned constant / error outcome)",
     "harness/refeval.py: independent evaluator used as the property-level oracle (value of the formula under the assignment, defaults for absent symbols)",
-    "core/Sem.v: semantic specification the theorems are stated against",
+    "core/Sem.v: semantic specification the theorems are stated against; the semantic theorems of props/C02.v "
+    "(get_value_exact / total / partial_sound / satisfies_iff, all `_partial`) are the composition of C05's substitution lemma with "
+    "C01's simplify_sound / fold_complete on their common fragment `gfrag` (proofs/EagerModelSem_proofs.v)",
 ]
 ASSUME = [
     "quantifier-free, UF-free formulas; assignments map symbols to constants of their sort",
